@@ -7,11 +7,13 @@ CONFIG = {
         "n": {"quick": 8000, "thorough": 48000, "search": 9600},
         "shards": {"quick": 16, "thorough": 16, "search": 16},
         "timeout_s": 1500,
-        "rule": "seeded generator of single-field j5s files (every field type x rule presence/absence/zero/boundary values, "
-                "both values of every boolean, arrays with min/max/unique and per-item rules, key formats, enum in/notIn with "
-                "prefixed and unprefixed names), compiled by the real compiler; per declaration up to 40 candidate values around "
+        "rule": "corpus (witness of the open finding + witnesses of fixed findings) then a seeded generator of single-field j5s files "
+                "(every field type x rule presence/absence/zero/boundary values, "
+                "both values of every boolean, arrays with min/max/unique and per-item rules, maps with minPairs/maxPairs and per-value "
+                "rules, key formats, enum in/notIn with prefixed and unprefixed names, enum list rules with default filters), compiled by the "
+                "real compiler; per declaration up to 40 candidate values around "
                 "every induced boundary (below/at/above bounds, shortest/longest strings incl. multi-byte runes, matching / "
-                "non-matching strings of a small regex class, undefined enum numbers, unset vs zero). Result = emitted "
+                "non-matching strings of a small regex class, undefined enum numbers, unset vs zero, lists / maps around the count bounds). Result = emitted "
                 "(buf.validate.field) + presence + protovalidate-go verdict per value. Non-trivial = declaration with a rule, "
                 "required flag, key or enum type, or at least one rejected value; distinct by declaration text.",
     }],
@@ -26,8 +28,11 @@ CONFIG = {
         "the Go harness internal/verifh/rulesh (generator, j5s text renderer, canonical dump, oracle)",
     ],
     "assumptions": [
-        "integer bounds written in j5s text are within [0, 2^31-1] (BCL has no negative literals and parses the attribute as int32); "
-        "the int32/uint32/uint64 casts are modelled and proved lossless only for in-range bounds (C12_int_cast_counterexample shows the rest)",
+        "integer bounds written in j5s text are non-negative (BCL has no negative literals); a bound outside the field's type is a compile "
+        "error (C12_int_out_of_range_rejected), inside it the int32/uint32/uint64 casts are proved lossless",
+        "whether `? type` gives the compiled field presence is measured on the real compiler at harness start-up and shipped with every op "
+        "(`optpres`); the theorems hold for both values, C12_equiv_repaired is the statement for the current compiler (optpres=1, c0f36ba)",
+        "a map value is represented by the list of its values (keys k0,k1,… carry no rules)",
         "values of fields without presence: the unset field is the zero value",
         "type references resolve and the buf/validate import is present (every generated file has a leading required field)",
     ],
